@@ -67,7 +67,7 @@ pub fn restore_priv(on: bool) {
 }
 
 /// hand the tree over to the unprivileged user and take permissions away here and there
-fn prepare_unpriv_tree(rootdir: &std::path::Path, spec: &TreeSpec, seed: u64) {
+fn prepare_unpriv_tree(rootdir: &std::path::Path, spec: &TreeSpec, seed: u64, op: &Op) {
     use std::os::unix::fs::PermissionsExt;
     let chown = |p: &std::path::Path| {
         let c = std::ffi::CString::new(p.as_os_str().as_bytes()).unwrap();
@@ -83,10 +83,19 @@ fn prepare_unpriv_tree(rootdir: &std::path::Path, spec: &TreeSpec, seed: u64) {
         chown(&rootdir.join(OsStr::from_bytes(&e.path)));
     }
     let mut rng = rng::Rng::new(seed ^ 0x5eed_0bad);
-    if rng.chance(1, 2) {
-        // deepest first, so that a parent's restriction does not hide the children from chmod (we are root anyway)
+    // entries named on the operation's path are the interesting ones to take permissions from
+    let line = op.line();
+    let on_path: Vec<&tree::Entry> = spec
+        .entries
+        .iter()
+        .filter(|e| {
+            let last = e.path.rsplit(|c| *c == b'/').next().unwrap_or(b"");
+            !last.is_empty() && line.contains(&fmt::hex(last)[1..])
+        })
+        .collect();
+    if rng.chance(2, 3) {
         for _ in 0..(1 + rng.below(2)) {
-            let e = rng.pick(&spec.entries);
+            let e = if !on_path.is_empty() && rng.chance(3, 4) { *rng.pick(&on_path) } else { rng.pick(&spec.entries) };
             let p = rootdir.join(OsStr::from_bytes(&e.path));
             let mode = match e.kind {
                 tree::Kind::Dir => *rng.pick(&[0o000, 0o300, 0o500, 0o100, 0o600, 0o400, 0o200]),
@@ -192,7 +201,7 @@ fn run_root_case(
     let (top, rootdir) = setup_case_dir(ctx, "case", spec);
     let unpriv = ctx.unpriv;
     if unpriv {
-        prepare_unpriv_tree(&rootdir, spec, seed);
+        prepare_unpriv_tree(&rootdir, spec, seed, op);
     }
     let labels = Labels::of_tree(spec, &rootdir);
     let mut root = Root::open(&rootdir).expect("open root");
